@@ -173,3 +173,23 @@ def self_test(rng, cases=60):
             raise AssertionError(f"oracle engines disagree {verdicts} on {cols} {es} vs {c2} {e2}")
         done += 1
     return done
+
+
+def refinement_rounds(colors, edges):
+    """Number of splitting rounds of plain colour refinement (own implementation) until the partition is stable."""
+    n, es = _norm(colors, edges)
+    nb = [[] for _ in range(n)]
+    for a, b in es:
+        nb[a].append(b)
+        nb[b].append(a)
+    ids = {c: i for i, c in enumerate(sorted(set(colors)))}
+    cur = [ids[c] for c in colors]
+    rounds = 0
+    while True:
+        sig = [(cur[v], tuple(sorted(cur[u] for u in nb[v]))) for v in range(n)]
+        m = {s: i for i, s in enumerate(sorted(set(sig)))}
+        nxt = [m[s] for s in sig]
+        if len(set(nxt)) == len(set(cur)):
+            return rounds
+        cur = nxt
+        rounds += 1
